@@ -1278,7 +1278,7 @@ static void union_initializer(Token **rest, Token *tok, Initializer *init) {
         Member *mem = struct_designator(&tok, tok, init->ty);
         select_union_member(init, mem);
         designation(&tok, tok, init->children[mem->idx]);
-      } else if (first) {
+      } else if (first && skip_unnamed_bitfields(init->ty->members)) {
         select_union_member(init, skip_unnamed_bitfields(init->ty->members));
         initializer2(&tok, tok, init->children[init->mem->idx]);
       } else {
@@ -1289,8 +1289,23 @@ static void union_initializer(Token **rest, Token *tok, Initializer *init) {
     return;
   }
 
-  select_union_member(init, skip_unnamed_bitfields(init->ty->members));
-  initializer2(rest, tok, init->children[init->mem->idx]);
+  // A union can be initialized with another union. E.g.
+  // `union U x = y;` where y is a variable of type `union U`.
+  Node *expr = assign(rest, tok);
+  add_type(expr);
+  if (expr->ty->kind == TY_UNION) {
+    init->expr = expr;
+    return;
+  }
+
+  // Otherwise the initializer is for the first named member, if any.
+  Member *mem = skip_unnamed_bitfields(init->ty->members);
+  if (!mem) {
+    *rest = tok;
+    return;
+  }
+  select_union_member(init, mem);
+  initializer2(rest, tok, init->children[mem->idx]);
 }
 
 // initializer = string-initializer | array-initializer
@@ -1429,8 +1444,10 @@ static Node *create_lvar_init(Initializer *init, Type *ty, InitDesg *desg, Token
     return node;
   }
 
-  if (ty->kind == TY_UNION) {
+  if (ty->kind == TY_UNION && !init->expr) {
     Member *mem = init->mem ? init->mem : ty->members;
+    if (!mem)
+      return new_node(ND_NULL_EXPR, tok);
     InitDesg desg2 = {desg, 0, mem};
     return create_lvar_init(init->children[mem->idx], mem->ty, &desg2, tok);
   }
@@ -1523,6 +1540,8 @@ write_gvar_data(Relocation *cur, Initializer *init, Type *ty, char *buf, int off
   }
 
   if (ty->kind == TY_UNION) {
+    if (init->expr)
+      error_tok(init->expr->tok, "not a compile-time constant");
     if (!init->mem)
       return cur;
     return write_gvar_data(cur, init->children[init->mem->idx],
